@@ -572,11 +572,12 @@ def int_layouts(draw):
         comps.append({"kind": kind, "idx": g, "pars": pars})
     return {"seed": draw(st.integers(0, 2**31)), "n": n, "comps": comps, "theta": theta,
             "par_form": draw(st.sampled_from(["pyint", "int64", "int32", "int8", "uint8", "int16", "float32", "float16", "float64"])),
+            "scalars": draw(st.sampled_from([None, None, "list", "bare"])), "idx_style": draw(st.sampled_from(["list", "list", "array", "np-list", "bare"])),
             "theta_form": draw(st.sampled_from(["int64", "int32", "int64", "float64", "int8"])),
             "joint": draw(st.booleans())}
 
 
-def make_form(kind, pars, idx, form):
+def make_form(kind, pars, idx, form, scalars=None, idx_style="list"):
     def as_array(v):
         a = np.array(v, dtype=float)
         with np.errstate(all="ignore"):
@@ -584,15 +585,25 @@ def make_form(kind, pars, idx, form):
         return b if np.array_equal(b.astype(float), a) else a.astype(np.int64)      # (a type that cannot hold the numbers: int64)
 
     conv = (lambda v: [int(x) for x in v]) if form == "pyint" else (as_array if form != "float" else (lambda v: [float(x) for x in v]))
+    if scalars and form not in ("pyint", "float"):
+        # values taken out of an array one by one are numpy scalars: a list of them, or the scalar itself for a single parameter
+        arr = conv
+        conv = (lambda v: (lambda a: a[0] if (scalars == "bare" and a.size == 1) else list(a))(arr(v)))
+    # the indices as a caller may hold them: a list of Python ints, an index array (arange, flatnonzero), a list of numpy integers,
+    # a single numpy integer
+    ids = {"list": list(idx), "array": np.array(idx, dtype=np.int64), "np-list": list(np.array(idx, dtype=np.int32)),
+           "bare": (np.int64(idx[0]) if len(idx) == 1 else list(idx))}[idx_style]
     if kind == "gauss":
         args = {"mean": conv([p[0] for p in pars]), "sigma": conv([p[1] for p in pars])}
-        obj = GaussianPrior(variable_indices=list(idx), **args)
+        obj = GaussianPrior(variable_indices=ids, **args)
     elif kind == "exp":
         args = {"beta": conv([p[0] for p in pars])}
-        obj = ExponentialPrior(variable_indices=list(idx), **args)
+        obj = ExponentialPrior(variable_indices=ids, **args)
     else:
         args = {"lower": conv([p[0] for p in pars]), "upper": conv([p[1] for p in pars])}
-        obj = UniformPrior(variable_indices=list(idx), **args)
+        obj = UniformPrior(variable_indices=ids, **args)
+    if isinstance(ids, np.ndarray):
+        ids[...] = 0      # (the caller's array, re-used)
     # the arrays handed over are the caller's: it may re-use them (here: refill them) once the prior is built
     for a in args.values():
         if isinstance(a, np.ndarray) and a.flags.writeable:
@@ -606,7 +617,7 @@ def body_int_forms(case, ctx):
     comps, n = case["comps"], case["n"]
     if not case["joint"]:
         comps = comps[:1]
-    obj_i = [make_form(c["kind"], c["pars"], c["idx"], case["par_form"]) for c in comps]
+    obj_i = [make_form(c["kind"], c["pars"], c["idx"], case["par_form"], case.get("scalars"), case.get("idx_style", "list")) for c in comps]
     obj_f = [make_form(c["kind"], c["pars"], c["idx"], "float") for c in comps]
     pri_i, pri_f = (JointPrior(obj_i, n), JointPrior(obj_f, n)) if case["joint"] else (obj_i[0], obj_f[0])
     th_f = np.array(case["theta"], dtype=float)
@@ -635,6 +646,7 @@ def body_int_forms(case, ctx):
             raise Violation(f"int-forms:sample", f"[{tag}] layout {[(c['kind'], c['idx'], c['pars']) for c in comps]}: draws from the same generator state differ: {s_i[0].tolist()} vs {s_f[0].tolist()}")
     ctx.nontrivial(len(comps) >= 2 or len(comps[0]["idx"]) >= 2)
     ctx.event("pars=" + case["par_form"])
+    ctx.event(f"numpy scalars={case.get('scalars')}, indices={case.get('idx_style', 'list')}")
     ctx.event("theta=" + tf)
     ctx.event("joint" if case["joint"] else "single")
 
